@@ -134,12 +134,25 @@ def run(ctx):
         conds = [c for c in F.dominating_conds(hb, u.bb) if c.kind == 'disc' and 'branch' not in c.expr.show()]
         optional = bool(conds)
         seq.append((u, kind, optional))
+    def entry_fields(u):
+        return set(x.b.rsplit('::', 1)[-1] for x in hb.expr(u.args[1]).walk() if x.k == 'field' and x.b.startswith(ENTRY + '::'))
+    # unique decodability: every variable-length operand that is followed by any other operand must have its
+    # own length fed to the MAC before it (a fixed-width operand in between, e.g. a presence byte, does not help:
+    # the variable bytes can still absorb it)
     bad = []
     for i in range(len(seq) - 1):
         u, k, opt = seq[i]
-        u2, k2, opt2 = seq[i + 1]
-        if k == 'var' and k2 == 'var':
-            bad.append((u, u2))
+        if k != 'var':
+            continue
+        # operands fed after this one on some path (an operand on the other arm of a match does not follow it)
+        reach = hb.reachable_from([u.bb])
+        followers = [u2 for (u2, _k2, _o2) in seq[i + 1:] if u2.bb in reach and u2.bb != u.bb]
+        if not followers:
+            continue
+        mine = entry_fields(u)
+        has_len = any(k0 == 'len' and (entry_fields(u0) & mine) and hb.dominates(u0.bb, u.bb) for (u0, k0, _o) in seq[:i])
+        if not has_len:
+            bad.append((u, followers[0]))
     # an optional trailing operand whose absence is not encoded
     presence = []
     for i, (u, k, opt) in enumerate(seq):
@@ -147,12 +160,39 @@ def run(ctx):
             # is there an update on the complementary arm (presence byte) or a preceding presence/len operand?
             prev = seq[i - 1] if i > 0 else None
             enc = prev is not None and prev[1] == 'len'
+            # the Option place this operand is conditional on
+            optplaces = set()
+            for c in F.dominating_conds(hb, u.bb):
+                if c.kind == 'disc':
+                    optplaces.add(c.expr.strip().show())
+            if not enc and prev is not None and prev[1] == 'fixed' and not prev[2]:
+                # unconditional presence byte: `&[entry.value.is_some() as u8]` (or is_none / the discriminant itself)
+                pe = hb.expr(prev[0].args[1])
+                for x in pe.walk():
+                    if x.k == 'call' and re.search(r'Option::<.*>::is_(some|none)$|Option<.*>::is_(some|none)$', x.a) and x.b:
+                        if x.b[0].strip().show() in optplaces:
+                            enc = True
+                    if x.k == 'disc' and x.a.strip().show() in optplaces:
+                        enc = True
+            if not enc and prev is not None and prev[1] == 'fixed' and prev[2]:
+                # two-arm form: a constant marker on the Some arm and a different constant marker on the None arm
+                mine = hb.expr(prev[0].args[1]).show()
+                mydisc = [c for c in F.dominating_conds(hb, u.bb) if c.kind == 'disc']
+                for (u3, k3, opt3) in seq:
+                    if u3 is prev[0] or u3 is u or k3 != 'fixed' or not opt3:
+                        continue
+                    for c3 in F.dominating_conds(hb, u3.bb):
+                        if c3.kind != 'disc':
+                            continue
+                        for c in mydisc:
+                            if c3.expr.show() == c.expr.show() and c3.value != c.value and hb.expr(u3.args[1]).show() != mine:
+                                enc = True
             if not enc:
                 presence.append(u)
     okf = not bad
     ctx.ob('FRAMING', 'mac-input-injective', okf, (bad[0][1].where() if bad else hb.where()),
-           ('MAC input is not injective: %s (line %s) is followed by %s (line %s), both variable-length, with no length in between: '
-            'bytes can move from one field to the other under the same tag' % (
+           ('MAC input is not injective: variable-length %s (line %s) is followed by %s (line %s) and its length is not fed to the MAC before it: '
+            'bytes can move from one field to the next under the same tag' % (
                 hb.expr(bad[0][0].args[1]).brief(80), bad[0][0].ln, hb.expr(bad[0][1].args[1]).brief(80), bad[0][1].ln)) if bad else
            'MAC operands in order: %s' % ', '.join(k for _, k, _ in seq))
     ctx.ob('FRAMING', 'option-presence-encoded', not presence, (presence[0].where() if presence else hb.where()),
@@ -175,16 +215,32 @@ def run(ctx):
             ordn = sum(1 for o in ctx.obls if o.key.startswith('alloc@%s' % b.id))
             conds = F.dominating_conds(b, cs.bb)
             bounded = False
-            szt = sz.strip().show()
+
+            def uncast(e):
+                # peel lets/refs and lossless widenings (target usize/u64/u128; the sources here are u32/usize)
+                while True:
+                    e = e.strip()
+                    if e.k == 'cast' and str(e.a).startswith('IntToInt') and str(e.c) in ('usize', 'u64', 'u128'):
+                        e = e.b
+                    else:
+                        return e
+            names = {uncast(sz).show(), src.show()}
             for c in conds:
                 if c.kind != 'cmp':
                     continue
-                l, r = c.lhs.strip().show(), c.rhs.strip().show()
-                if (l == szt and c.op in ('Le', 'Lt')) or (r == szt and c.op in ('Ge', 'Gt')):
-                    bounded = True
-                # compare on the un-cast u32 too
-                if src.show() in (l, r) and ((src.show() == l and c.op in ('Le', 'Lt')) or (src.show() == r and c.op in ('Ge', 'Gt'))):
-                    bounded = True
+                l, r = uncast(c.lhs).show(), uncast(c.rhs).show()
+                other = None
+                if l in names and c.op in ('Le', 'Lt'):
+                    other = c.rhs
+                elif r in names and c.op in ('Ge', 'Gt'):
+                    other = c.lhs
+                if other is None:
+                    continue
+                # a constant bound that a 32-bit prefix can never exceed bounds nothing
+                cv = uncast(other).const_value()
+                if isinstance(cv, int) and cv >= 0xFFFFFFFF:
+                    continue
+                bounded = True
             if sz.mentions_call(r'::min$|cmp::min$') is not None:
                 bounded = True
             ctx.ob('ALLOC-BOUND', 'alloc@%s#%d' % (b.id, ordn), bounded, cs.where(),
